@@ -700,6 +700,12 @@ def c12(pid, tier, seed, t0):
     decls = vlib.vary_names(decls)
     declfile = save_decls("C12", decls)
     legs = [trace_leg(pid, tier, seed, "model+nc+rand(overlapping)", decls, declfile, "history", q(tier, 3, 12), crate="rt-c12")]
+    # histories over fields whose list names a bit twice: the covered bits are the implementation's business (Register!WithDup),
+    # every other bit still obeys last-write-wins
+    _, dup = vlib.corpus("dup")
+    dups = copyd(dup)
+    dfile = save_decls("C12dup", dups)
+    legs.append(trace_leg(pid, tier, seed, "self-overlapping range lists", dups, dfile, "history", 1, crate="rt-c12d", binding_events=("raw", "new")))
     PROOFS["C12"] = tlaps_leg(["LastWriteWinsStep", "DisjointCommute", "Frame"])
     SIMS["C12"] = sim_leg(pid, tier, seed, "rt-c12", decls, declfile, q(tier, 60, 1500), q(tier, 30, 60))
     finish(pid, tier, seed, t0, mc, legs,
